@@ -391,6 +391,12 @@ func (bldr *BundleBuilder) HopCountBlock(args ...interface{}) *BundleBuilder {
 //   where Data is the payload's data and
 //   BlockControlFlags are _optional_ block processing control flags
 func (bldr *BundleBuilder) PayloadBlock(args ...interface{}) *BundleBuilder {
+	// binary.Write panics for a nil value, e.g., a JSON null within a request passed to BuildFromMap.
+	if len(args) == 0 || args[0] == nil {
+		bldr.err = fmt.Errorf("PayloadBlock requires data, but got nothing")
+		return bldr
+	}
+
 	var buf bytes.Buffer
 	if err := binary.Write(&buf, binary.LittleEndian, args[0]); err != nil {
 		bldr.err = err
